@@ -3357,6 +3357,10 @@ def inline_record_methods(tree: ast.Module) -> int:
                 for z in ast.walk(tree):
                     for ch in ast.iter_child_nodes(z):
                         pars_c[id(ch)] = z
+                if not uses_c and m.name not in common and not m.name.startswith('__') and not any(
+                        isinstance(z, ast.Constant) and z.value == m.name for z in ast.walk(tree)):
+                    cls.body.remove(m)          # (every call was already read in place: nothing names it any more)
+                    continue
                 okc = (len(cbody) == 1 and isinstance(cbody[0], ast.Return) and cbody[0].value is not None and len(ca.args) == 1
                        and not ca.vararg and not ca.kwarg and not ca.kwonlyargs and m.name not in common and bool(uses_c)
                        and all(isinstance(u.value, ast.Name) and u.value.id == cls.name and isinstance(pars_c.get(id(u)), ast.Call)
